@@ -421,6 +421,16 @@ def run_space(case, res, lines):
         if not isinstance(corr, str):
             res.fail("correlation_matrix returns for an unsupported arity", case, "matrix", "an exception")
         return
+    if not usids:
+        # a screen without experiments has no sample to compare: np.stack([]) refuses (the model does the same)
+        res.count("corr.no_samples")
+        if corr != "err:ValueError":
+            res.fail("correlation_matrix of a screen without experiments does not refuse", case, str(corr)[:100], "err:ValueError")
+        if lines is not None:
+            hs = "/".join(P.theta_tok(kind, t) for t in ths)
+            lines.append(("c20.corr %s %d %s %d %s %s %s" % (kind, len(ths), hs, a, ints_tok(tm_ids), ints_tok(sm_ids), ints_tok(sc.sample_ids)),
+                          corr, ("matrix", 1e3), case))
+        return
     if isinstance(corr, str):
         res.fail("correlation_matrix raises", case, corr, "a matrix")
         return
@@ -522,7 +532,7 @@ def _run(ctx, res):
     lines = [] if ctx.driver is not None else None
     tmp = tempfile.mkdtemp(prefix="c20_")
     try:
-        for i in range(ctx.scale(120, 2500, 1200)):
+        for i in range(ctx.scale(120, 6000, 1200)):
             case = gen_eval(ctx.subrng("eval", i), i)
             run_eval(case, res, lines, tmp if (i % 4 == 0 or ctx.tier != "quick") else None)
             res.evaluations += 1
@@ -537,7 +547,7 @@ def _run(ctx, res):
                 res.sample({"kind": "eval", "E": case["E"], "K": case["K"], "chains": case["chains"]})
     finally:
         shutil.rmtree(tmp, ignore_errors=True)
-    for i in range(ctx.scale(150, 3000, 1500)):
+    for i in range(ctx.scale(150, 8000, 1500)):
         case = gen_effects(ctx.subrng("eff", i), i)
         run_effects(case, res, lines)
         res.evaluations += 1
@@ -559,12 +569,12 @@ def _run(ctx, res):
             res.nontrivial.add(("effects", i))
         if i < 2:
             res.sample({"kind": "effects", "arity": case["arity"], "sids": case["sids"], "tids": case["tids"]})
-    for i in range(ctx.scale(40, 800, 400)):
+    for i in range(ctx.scale(40, 2000, 400)):
         case = gen_model(ctx.subrng("cmse", i), i, "cmse")
         run_cmse(case, res, lines)
         res.evaluations += 1
         res.count("cmse.%s" % case["model"])
-    for i in range(ctx.scale(40, 600, 300)):
+    for i in range(ctx.scale(40, 1500, 300)):
         case = gen_model(ctx.subrng("space", i), i, "space")
         run_space(case, res, lines)
         res.evaluations += 1
